@@ -1,6 +1,7 @@
 #!/bin/bash
-# offline build of everything the checks need
+# offline build of everything the checks need (run once after a fresh restore)
 set -eu
 cd "$(dirname "${BASH_SOURCE[0]}")"
 export CARGO_NET_OFFLINE=true
 (cd harness && cargo build --release --offline --features hooks --target-dir ../target/hooks)
+(cd harness && cargo build --release --offline --target-dir ../target/plain)
